@@ -149,7 +149,8 @@ func (p *BundlePropertyExperimenter) UnmarshalBinary(data []byte) error {
 	p.ExperimenterType = binary.BigEndian.Uint32(data[n:])
 	n += 4
 	if len(data) < int(p.Length) {
-		p.data = data[n:]
+		p.data = make([]byte, len(data[n:]))
+		copy(p.data, data[n:])
 	}
 	return nil
 }
